@@ -57,36 +57,40 @@ func ValidateToken(op TokenOptions, token string) error {
 // Returns nil on successful verification, else returns an error.
 func verifyCaveats(caveats []string, userID string) error {
 	// variable verified represents a bitmap
-	// last 4 bits are Uvvv where,
-	// U: unknownCaveat
+	// last 3 bits are vvv where,
 	// v: caveat to be verified
+	// Every caveat must hold and each kind must appear exactly once: anyone holding
+	// a macaroon can append further caveats to it, so a caveat that fails (or that
+	// repeats a kind) can never be outvoted by another one that passes.
 	var verified uint8
 	now := int(time.Now().Unix())
 
-LoopCaveat:
 	for _, caveat := range caveats {
+		var bit uint8
 		switch {
 		case caveat == Gen:
-			verified |= 1
+			bit = 1
 		case strings.HasPrefix(caveat, UserPrefix):
-			if caveat[len(UserPrefix):] == userID {
-				verified |= 2
+			if caveat[len(UserPrefix):] != userID {
+				return errors.New("Token was issued for a different user")
 			}
+			bit = 2
 		case strings.HasPrefix(caveat, TimePrefix):
-			if verifyExpiry(caveat[len(TimePrefix):], now) {
-				verified |= 4
+			if !verifyExpiry(caveat[len(TimePrefix):], now) {
+				return errors.New("Token has expired")
 			}
+			bit = 4
 		default:
-			verified |= 8
-			break LoopCaveat
+			return errors.New("Unknown caveat present")
 		}
+		if verified&bit != 0 {
+			return errors.New("Duplicate caveat present")
+		}
+		verified |= bit
 	}
-	// Check that all three caveats are verified and no extra caveats
-	// i.e. Uvvv == 0111
+	// Check that all three caveats are verified i.e. vvv == 111
 	if verified == 7 {
 		return nil
-	} else if verified >= 8 {
-		return errors.New("Unknown caveat present")
 	}
 
 	return errors.New("Required caveats not present")
